@@ -227,11 +227,14 @@ def materialise(desc: dict) -> Built:
             cls = abstract(type(a["name"], (), {"__module__": modname}))
         else:
             cls = abstract(type(a["name"], (parent,), {"__module__": modname}))
+        if a.get("weight") is not None:  # a nested abstract type is a production of its parent and may carry a weight
+            cls = weight(a["weight"])(cls)
         ns[a["name"]] = cls
         setattr(mod, a["name"], cls)
     # 2. concrete shells
     for p in desc["prods"]:
         bases = (ns[p["parent"]],) if p.get("parent") else ()
+        bases += tuple(ns[b] for b in p.get("also", []))  # further abstract bases (the library files a class under its FIRST base)
         if desc.get("_pad_between"):  # allocation pattern BETWEEN class definitions (relative addresses of the classes)
             ns.setdefault("__pad__", []).append(bytearray(int(desc["_pad_between"])))  # malloc'ed, like the class objects
         shown = p.get("qualname", p["name"])  # factory-made classes may share one (module, qualname)
